@@ -520,7 +520,7 @@ def signature(case, impl, why):
         g = re.search(r"(did|also did|did not do) \['(\w+)'", why)
         w = re.search(r"says \['(\w+)'", why)
         return "%s/event/%s-%s-vs-%s" % (case["kind"], g.group(1).replace(" ", "_") if g else "?", g.group(2) if g else "?",
-                                          w.group(2) if w else "-")
+                                          w.group(1) if w else "-")
     if kind == "outcome":
         return "%s/outcome/%s" % (case["kind"], "-".join(re.findall(r"\['([\w:]+)'", why)[:2]))
     return "%s/%s" % (case["kind"], kind)
